@@ -196,7 +196,8 @@ Proof. intros F A. induction A as [a|a p x L A IH]; [exact F|]. apply IH. eapply
 (* ---------- consistency, relational form ---------- *)
 Record Cons (C : slot -> option hash) (H : hist) : Prop := {
   c_fast : forall b, Fast H b -> C (fst b) = Some (snd b);
-  c_notar : forall b h, Notar H b -> C (fst b) = Some h -> h = snd b;
+  c_fast_notar : forall s h h', Fast H (s, h) -> Notar H (s, h') -> h = h';
+  c_fin_notar : forall s h, Fin H s -> Notar H (s, h) -> C s = Some h;
   c_notar1 : forall s h h', Notar H (s, h) -> Notar H (s, h') -> h = h';
   c_fin : forall s, Fin H s -> C s <> None;
   c_link_lt : forall c p, Link H c p -> fst p < fst c;
@@ -204,6 +205,15 @@ Record Cons (C : slot -> option hash) (H : hist) : Prop := {
   c_link_chain : forall c p, Link H c p -> C (fst c) = Some (snd c) ->
                  C (fst p) = Some (snd p) /\ forall t, fst p < t < fst c -> C t = None }.
 
+Lemma finb_iff_early H s : Fin H s -> finb H s = true.
+Proof.
+  unfold finb, Fin. intros Hin. apply existsb_exists. exists (TFinal s). split; [exact Hin | apply N.eqb_refl].
+Qed.
+Lemma finb_true_early H s : finb H s = true -> Fin H s.
+Proof.
+  unfold finb, Fin. rewrite existsb_exists. intros [o [Hin E]]. destruct o; try discriminate.
+  apply N.eqb_eq in E. subst. exact Hin.
+Qed.
 Lemma chain_has_iff C b : chain_has C b = true <-> C (fst b) = Some (snd b).
 Proof.
   unfold chain_has. destruct (C (fst b)) as [h|]; split; intros H; try discriminate.
@@ -224,12 +234,21 @@ Proof.
   unfold ft_consistent. intros Hc. apply andb_prop in Hc. destruct Hc as [Hg Hc].
   rewrite forallb_forall in Hc.
   assert (HN : forall b, In (TNotar b) H ->
-               (forall h, C (fst b) = Some h -> h = snd b) /\ (fst b = 0 -> snd b = 0) /\
+               (Fin H (fst b) -> C (fst b) = Some (snd b)) /\ (fst b = 0 -> snd b = 0) /\
                (forall b', In (TNotar b') H -> fst b = fst b' -> snd b = snd b')).
   { intros b Hb. specialize (Hc _ Hb). cbn [op_consistent] in Hc.
     apply andb_prop in Hc. destruct Hc as [Hc H3]. apply andb_prop in Hc. destruct Hc as [H1 H2].
-    split; [apply chain_agrees_iff; exact H1|]. split; [lia|].
-    intros b' Hb' E. rewrite forallb_forall in H3. specialize (H3 _ Hb'). cbn in H3. lia. }
+    split.
+    - intros Fs. apply finb_iff_early in Fs. rewrite Fs in H1. cbn [negb orb] in H1. apply chain_has_iff. exact H1.
+    - split; [lia|].
+      intros b' Hb' E. rewrite forallb_forall in H3. specialize (H3 _ Hb'). cbn in H3. lia. }
+  assert (HF : forall b, In (TFast b) H ->
+               C (fst b) = Some (snd b) /\ (fst b = 0 -> snd b = 0) /\
+               (forall b', In (TNotar b') H -> fst b = fst b' -> snd b = snd b')).
+  { intros b Hb. specialize (Hc _ Hb). cbn [op_consistent] in Hc.
+    apply andb_prop in Hc. destruct Hc as [Hc H3]. apply andb_prop in Hc. destruct Hc as [H1 H2].
+    split; [apply chain_has_iff; exact H1|]. split; [lia|].
+    intros b' Hb' E. rewrite forallb_forall in H2. specialize (H2 _ Hb'). cbn in H2. lia. }
   assert (HP : forall c p, In (TParent c p) H ->
                fst p < fst c /\ (forall p', In (TParent c p') H -> p = p') /\
                (C (fst c) = Some (snd c) -> C (fst p) = Some (snd p) /\ forall t, fst p < t < fst c -> C t = None)).
@@ -244,10 +263,14 @@ Proof.
       assert (Hin : In t (seqN (fst p + 1) (N.to_nat (fst c - fst p - 1)))) by (apply in_between; exact Ht).
       specialize (H4 Hin). destruct (C t); [discriminate | reflexivity]. }
   split.
-  - intros b Hb. specialize (Hc _ Hb). cbn [op_consistent] in Hc. apply chain_has_iff. exact Hc.
-  - intros b h [->|Hb] E.
-    + cbn [fst snd] in *. rewrite chain_agrees_iff in Hg. apply (Hg h). exact E.
-    + apply (proj1 (HN b Hb)). exact E.
+  - intros b Hb. apply (HF b Hb).
+  - intros s h h' Hf [E|Hb].
+    + injection E as -> ->. apply (proj1 (proj2 (HF _ Hf))). reflexivity.
+    + apply (proj2 (proj2 (HF _ Hf)) _ Hb). reflexivity.
+  - intros s h Fs [E|Hb].
+    + injection E as -> ->. apply finb_iff_early in Fs. rewrite Fs in Hg. cbn [negb orb] in Hg.
+      apply chain_has_iff in Hg. exact Hg.
+    + apply (proj1 (HN _ Hb)). exact Fs.
   - intros s h h' [E|Hb] [E'|Hb'].
     + congruence.
     + injection E as -> ->. symmetry. apply (proj1 (proj2 (HN _ Hb'))). reflexivity.
@@ -261,10 +284,11 @@ Qed.
 
 Lemma Cons_prefix C H l : Cons C (H ++ l) -> Cons C H.
 Proof.
-  intros [A1 A2 A3 A4 A5 A6 A7]. pose proof (Ext_apps H l) as [E1 E2 E3 E4].
+  intros [A1 A2 A2' A3 A4 A5 A6 A7]. pose proof (Ext_apps H l) as [E1 E2 E3 E4].
   split; intros.
   - apply A1. auto.
   - eapply A2; eauto.
+  - apply A2'; auto.
   - eapply A3; eauto.
   - apply A4. auto.
   - apply A5. auto.
@@ -282,9 +306,7 @@ Lemma FinalStar_chain b : FinalStar H b -> C (fst b) = Some (snd b).
 Proof.
   intros F. induction F as [b [D|[D1 D2]]|c p F IH L].
   - apply (c_fast _ _ HC). exact D.
-  - destruct (C (fst b)) as [h|] eqn:E.
-    + f_equal. eapply (c_notar _ _ HC); eassumption.
-    + exfalso. apply (c_fin _ _ HC _ D1). exact E.
+  - destruct b as [s h]. cbn [fst snd] in *. apply (c_fin_notar _ _ HC); assumption.
   - apply (c_link_chain _ _ HC _ _ L IH).
 Qed.
 Lemma FinalStar_unique s h h' : FinalStar H (s, h) -> FinalStar H (s, h') -> h = h'.
@@ -327,10 +349,11 @@ End Chain.
 
 Lemma Cons_ext C H H' : Ext H H' -> Cons C H' -> Cons C H.
 Proof.
-  intros [E1 E2 E3 E4] [A1 A2 A3 A4 A5 A6 A7].
+  intros [E1 E2 E3 E4] [A1 A2 A2' A3 A4 A5 A6 A7].
   split; intros.
   - apply A1. auto.
   - eapply A2; eauto.
+  - apply A2'; auto.
   - eapply A3; eauto.
   - apply A4. auto.
   - apply A5. auto.
@@ -347,6 +370,12 @@ Proof.
   - apply N.eqb_eq in E. subst. apply alookup_ainsert_same.
   - apply alookup_ainsert_other. apply N.eqb_neq. exact E.
 Qed.
+
+(* a slot marked Finalized (rather than ImplicitlyFinalized) is directly finalized *)
+Definition FinDirect (H : hist) (t : ftracker) : Prop :=
+  forall s h, st t s = Some (FFinalized h) -> Direct H (s, h).
+Definition FinDirectAt (H : hist) (s : slot) (o : option fstatus) : Prop :=
+  match o with Some (FFinalized h) => Direct H (s, h) | _ => True end.
 
 Definition Undecided (H : hist) (s : slot) : Prop := (forall h, ~ FinalStar H (s, h)) /\ ~ SkippedStar H s.
 
@@ -640,9 +669,7 @@ Proof.
       - intros s0 Hs0. apply N2. lia. }
     destruct (st t sb) as [[h| |h|h|]|] eqn:Est; cbn [StatusSpec] in SbSpec.
     + (* Notarized h *)
-      destruct SbSpec as [Nh [_ [U _]]].
-      assert (Eh : hb = h) by (apply (c_notar _ _ HC' (sb, h) hb); [apply HE; exact Nh | exact Cb]).
-      subst h. rewrite N.eqb_refl. apply Cont. apply U.
+      destruct SbSpec as [Nh [_ [U _]]]. apply Cont. apply U.
     + destruct SbSpec as [_ [_ [U _]]]. apply Cont. apply U.
     + destruct (Done h _ eq_refl (or_introl eq_refl)) as [-> D]. rewrite N.eqb_refl.
       eexists; eexists. split; [reflexivity|]. apply D; try reflexivity.
@@ -827,12 +854,23 @@ Proof.
         * destruct (P8 s) as [Y|Y]; [left; exact Y | right; left; exact Y].
       + cbn [map]. constructor; [intros [] | constructor]. }
   destruct (st t sb) as [[h| |h|h|]|] eqn:Est.
-  - destruct (h =? hb); [|discriminate]. apply Cont; [reflexivity | exact R].
+  - apply Cont; [reflexivity | exact R].
   - apply Cont; [reflexivity | exact R].
   - destruct (h =? hb); [|discriminate]. apply (Restore _ eq_refl R).
   - destruct (h =? hb); [|discriminate]. apply (Restore _ eq_refl R).
   - discriminate.
   - apply Cont; [reflexivity | exact R].
+Qed.
+
+Lemma walk_fin_direct H fuel t m b ev t' ev' :
+  ft_handle_impl fuel t m b ev = Some (t', ev') -> FinDirect H t -> FinDirect H t'.
+Proof.
+  intros R FD s h E.
+  destruct (handle_impl_op _ _ _ _ _ _ _ R) as [_ [_ [_ [_ [nf [ns [_ [_ [W7 [W8 [W9 _]]]]]]]]]]].
+  destruct (W9 s) as [X|[X|[h0 X]]].
+  - apply FD. rewrite <- X. exact E.
+  - destruct (W7 s X) as [_ [_ [_ Y]]]. rewrite Y in E. discriminate.
+  - destruct (W8 _ X) as [_ [_ [_ Y]]]. cbn [fst snd] in Y. rewrite Y in E. discriminate.
 Qed.
 
 (* ================= the invariant of a run ================= *)
@@ -843,7 +881,8 @@ Record Inv (H : hist) (t : ftracker) : Prop := {
   inv_wm : is_decided (st t (ft_first t + 1)) = false;
   inv_high_ub : forall b, Direct H b -> fst b <= ft_highest t;
   inv_high_max : ft_highest t = 0 \/ exists b, Direct H b /\ fst b = ft_highest t;
-  inv_keys : KeysOK t }.
+  inv_keys : KeysOK t;
+  inv_fin_direct : FinDirect H t }.
 
 Lemma decided_status H s o : is_decided o = true -> StatusSpec H s o -> Decided H s.
 Proof.
@@ -1103,13 +1142,15 @@ Lemma finish_inv t0 t2 :
   ft_first t2 = ft_first t0 -> KeysOK t2 ->
   (forall b, Direct H' b -> fst b <= ft_highest t2) ->
   (ft_highest t2 = 0 \/ exists b, Direct H' b /\ fst b = ft_highest t2) ->
+  FinDirect H' t2 ->
   Inv H' (ft_prune t2) /\ ft_first t0 <= ft_first (ft_prune t2).
 Proof.
-  intros I PO SS Ef K HU HM.
+  intros I PO SS Ef K HU HM FD.
   assert (DB : DecidedBelow H' t2).
   { intros s Hs. rewrite Ef in Hs. apply (Decided_ext H H' s HE). apply (inv_below _ _ I). exact Hs. }
   destruct (prune_inv H' t2 PO SS DB K) as [Q1 [Q2 [Q3 [Q4 [Q5 [Q6 Q7]]]]]].
-  split; [|lia]. split; try assumption; rewrite Q7; assumption.
+  split; [|lia]. split; try assumption; try (rewrite Q7; assumption).
+  intros s h E. rewrite st_prune in E. destruct (ft_first (ft_prune t2) <=? s); [apply FD; exact E | discriminate].
 Qed.
 
 (* no new finalized block, no change to parents / watermark / highest slot *)
@@ -1120,9 +1161,10 @@ Lemma same_inv t0 t1 :
   (forall y, Direct H' y -> Direct H y \/ fst y <= ft_highest t0) ->
   (forall s, ft_first t0 <= s -> StatusSpec H' s (st t1 s)) ->
   is_decided (st t1 (ft_first t0 + 1)) = false ->
+  FinDirect H' t1 ->
   Inv H' t1.
 Proof.
-  intros I E1 E2 E3 K L D SS WM. split.
+  intros I E1 E2 E3 K L D SS WM FD. split.
   - intros b p. rewrite E1, E2. split.
     + intros X. apply (inv_parents _ _ I) in X. destruct X as [X1 X2]. split; [apply HE; exact X1 | exact X2].
     + intros [X1 X2]. apply (inv_parents _ _ I). split; [apply L; exact X1 | exact X2].
@@ -1133,6 +1175,7 @@ Proof.
   - rewrite E3. destruct (inv_high_max _ _ I) as [X|[b [X1 X2]]]; [left; exact X|].
     right. exists b. split; [eapply Direct_ext; eassumption | exact X2].
   - exact K.
+  - exact FD.
 Qed.
 
 Lemma decided_le_highest t0 s : Inv H t0 -> Decided H s -> s <= ft_highest t0.
@@ -1173,6 +1216,7 @@ Proof.
   - destruct (inv_high_max _ _ I) as [X|[b [X1 X2]]]; [left; exact X|].
     right. exists b. split; [eapply Direct_ext; eassumption | exact X2].
   - apply (inv_keys _ _ I).
+  - intros s h E. apply (Direct_ext H H' _ HE). apply (inv_fin_direct _ _ I). exact E.
 Qed.
 
 Lemma below_inv t0 :
@@ -1242,6 +1286,10 @@ Proof.
       destruct (FSn _ Fc) as [Y|Y]; [exact Y|]. exfalso. destruct Hcase as [Hgt|NoL].
       + pose proof (Anc_le C H HC _ _ Y) as Z. cbn [fst] in Z. lia.
       + inversion Y as [a|a p0 x0 L0 A0]; subst; [exact (NoL _ (L _ _ Lc)) | exact (NoL _ L0)]. }
+  assert (FD1 : FinDirect H' t1').
+  { intros s' h' E. change (st t1' s') with (st t1 s') in E. rewrite St1 in E. destruct (s' =? s) eqn:Es.
+    - apply N.eqb_eq in Es. subst s'. injection E as <-. exact Dn.
+    - apply (Direct_ext H H' _ HE). apply (inv_fin_direct _ _ I). exact E. }
   destruct (blookup (s, h) (ft_parents t1)) as [p|] eqn:Ep.
   - assert (Lp : Link H (s, h) p) by (rewrite E1 in Ep; apply (inv_parents _ _ I) in Ep; apply Ep).
     destruct (walk_spec C H H' HC' HE (ft_fuel t1') t1' s p ev1 h) as [t2 [ev2 [R [Q1 [Q2 [Q3 [Q4 Q5]]]]]]].
@@ -1273,6 +1321,7 @@ Proof.
       * exact Q5.
       * rewrite Q3. exact HU.
       * rewrite Q3. exact HM.
+      * apply (walk_fin_direct H' _ _ _ _ _ _ _ R). exact FD1.
       * exists (ft_prune t2), ev2. split; [reflexivity|]. split; [split; [exact G1|]|].
         2:{ split; [exact G2|]. unfold ft_prune. cbn [ft_highest]. rewrite Q3. unfold t1'. cbn [ft_highest]. lia. }
         destruct (handle_impl_op _ _ _ _ _ _ _ R) as [W1 [W2 [W3 [W4 [nf [ns [W5 [W6 [W7 [W8 [W9 [W10 W11]]]]]]]]]]]].
@@ -1317,6 +1366,7 @@ Proof.
     + exact K1'.
     + exact HU.
     + exact HM.
+    + exact FD1.
     + exists (ft_prune t1'), ev1. split; [reflexivity|]. split; [split; [exact G1|]|].
       2:{ split; [exact G2|]. unfold ft_prune, t1'. cbn [ft_highest]. lia. }
       assert (Ud : is_decided (st t0 s) = false).
@@ -1361,10 +1411,11 @@ Lemma nochange_inv t0 t1 s :
   (forall s' h', s' <> s -> Notar H' (s', h') -> Notar H (s', h')) ->
   (forall s', s' <> s -> Fin H' s' -> Fin H s') ->
   (forall s', s' <> s -> st t1 s' = st t0 s') ->
-  StatusSpec H' s (st t1 s) -> is_decided (st t1 s) = is_decided (st t0 s) -> ft_first t0 <= s ->
+  StatusSpec H' s (st t1 s) -> is_decided (st t1 s) = is_decided (st t0 s) -> FinDirectAt H' s (st t1 s) ->
+  ft_first t0 <= s ->
   Inv H' t1 /\ EvOK H H' fe_empty.
 Proof.
-  intros I E1 E2 E3 K L F D N1 N2 St S Dec Hs.
+  intros I E1 E2 E3 K L F D N1 N2 St S Dec FDs Hs.
   assert (I' : Inv H' t1); [|split; [exact I'|]].
   2:{ apply (ev_empty_same C H H' HC' HE t0 t1 I).
       - intros s' Hs'. apply (inv_status _ _ I'). rewrite E2. exact Hs'.
@@ -1390,6 +1441,9 @@ Proof.
   - destruct (N.eq_dec (ft_first t0 + 1) s) as [E|Hne].
     + rewrite E, Dec, <- E. apply (inv_wm _ _ I).
     + rewrite (St _ Hne). apply (inv_wm _ _ I).
+  - intros s' h' E. destruct (N.eq_dec s' s) as [->|Hne].
+    + rewrite E in FDs. exact FDs.
+    + rewrite (St s' Hne) in E. apply (Direct_ext H H' _ HE). apply (inv_fin_direct _ _ I). exact E.
 Qed.
 
 Lemma Undecided_same s :
@@ -1463,10 +1517,13 @@ Proof.
       - intros s' _. apply N2.
       - intros s' Hne. rewrite St1. replace (s' =? s) with false by lia. reflexivity.
       - rewrite St1, N.eqb_refl. cbn [StatusSpec]. eapply FinalStar_ext; eassumption.
-      - rewrite St1, N.eqb_refl. rewrite Dec. reflexivity. }
+      - rewrite St1, N.eqb_refl. rewrite Dec. reflexivity.
+      - rewrite St1, N.eqb_refl. cbn [FinDirectAt]. exact Dn. }
     destruct (st t s) as [[h'| |h'|h'|]|] eqn:Est; cbn [StatusSpec] in S.
     + destruct S as [Nh [_ U]].
-      assert (h = h') by (apply (c_notar _ _ HC' (s, h') h); [apply HE; exact Nh | exact Cs]). subst h'.
+      assert (h = h').
+      { apply (c_fast_notar _ _ HC' s h h'); [apply Fast_app; right; reflexivity | apply HE; exact Nh]. }
+      subst h'.
       rewrite N.eqb_refl. apply New. exact U.
     + apply New. apply S.
     + pose proof (FinalStar_chain C H HC _ S) as X. cbn [fst snd] in X. assert (h' = h) by congruence. subst h'.
@@ -1504,7 +1561,6 @@ Proof.
   assert (L : forall a b, Link H' a b -> Link H a b).
   { intros a b X. apply Link_app in X. destruct X as [X|X]; [exact X | discriminate]. }
   assert (FSn : forall x, FinalStar H' x -> FinalStar H x \/ Anc H (s, h) x) by (intros x; apply FS_new_mark; assumption).
-  assert (Cs : forall h', C s = Some h' -> h' = h) by (intros h'; apply (c_notar _ _ HC' (s, h) h' Nn)).
   (* the two reasons why nothing new is finalized *)
   assert (FnoFin : ~ Fin H s -> (forall x, FinalStar H' x -> FinalStar H x) /\
                    (forall y, Direct H' y -> Direct H y \/ fst y <= ft_highest t)).
@@ -1539,28 +1595,43 @@ Proof.
       * rewrite st_set, N.eqb_refl. cbn [StatusSpec]. split; [exact Nn|]. split; [intros X; apply NF; apply N2; exact X|].
         apply (Undecided_same H H' s L F U).
       * rewrite st_set, N.eqb_refl, Est. reflexivity.
+      * rewrite st_set, N.eqb_refl. cbv beta iota delta [FinDirectAt]. first [exact Logic.I | assumption].
     + (* FinalPendingNotar: the block becomes directly finalized *)
       destruct S as [Fs [NN U]].
       apply (hfb_inv C H H' HC' HE t _ s h I Hs); try reflexivity; try assumption.
       * intros s'. rewrite !st_set. destruct (s' =? s); reflexivity.
       * keys_set I Hs.
       * right. split; [apply HE; exact Fs | exact Nn].
-    + (* Finalized h' *)
-      pose proof (FinalStar_chain C H HC _ S) as X. cbn [fst snd] in X. pose proof (Cs _ X). subst h'.
+    + (* Finalized h': directly finalized, so h' is the slot's only notarized block *)
+      pose proof (inv_fin_direct _ _ I s h' Est) as Dd.
+      assert (h' = h).
+      { destruct Dd as [Fa|[Fi Nh]].
+        - apply (c_fast_notar _ _ HC' s h' h); [apply HE; exact Fa | exact Nn].
+        - apply (c_notar1 _ _ HC' s h' h); [apply HE; exact Nh | exact Nn]. }
+      subst h'. pose proof (Direct_ext H H' _ HE Dd) as Dd'.
       rewrite N.eqb_refl. destruct (Ffinal S) as [F Dh]. fin_same.
       apply (nochange_inv C H H' HC' HE t _ s I); try reflexivity; try assumption.
       * keys_set I Hs.
       * st_other.
       * rewrite st_set, N.eqb_refl. cbn [StatusSpec]. eapply FinalStar_ext; eassumption.
       * rewrite st_set, N.eqb_refl, Est. reflexivity.
-    + (* ImplFinalized h' *)
-      pose proof (FinalStar_chain C H HC _ S) as X. cbn [fst snd] in X. pose proof (Cs _ X). subst h'.
-      rewrite N.eqb_refl. destruct (Ffinal S) as [F Dh]. fin_same.
+      * rewrite st_set, N.eqb_refl. cbv beta iota delta [FinDirectAt]. first [exact Logic.I | assumption].
+    + (* ImplFinalized h': the notarized block may be another one (then the slot has no final mark) *)
+      assert (FD : (forall x, FinalStar H' x -> FinalStar H x) /\
+                   (forall y, Direct H' y -> Direct H y \/ fst y <= ft_highest t)).
+      { destruct (finb H s) eqn:Ef.
+        - apply finb_true_early in Ef.
+          pose proof (c_fin_notar _ _ HC' s h (ext_fin _ _ HE _ Ef) Nn) as X.
+          pose proof (FinalStar_chain C H HC _ S) as Y. cbn [fst snd] in Y.
+          assert (h' = h) by congruence. subst h'. apply Ffinal. exact S.
+        - apply FnoFin. intros X. apply finb_iff_early in X. congruence. }
+      destruct FD as [F Dh]. fin_same.
       apply (nochange_inv C H H' HC' HE t _ s I); try reflexivity; try assumption.
       * keys_set I Hs.
       * st_other.
       * rewrite st_set, N.eqb_refl. cbn [StatusSpec]. eapply FinalStar_ext; eassumption.
       * rewrite st_set, N.eqb_refl, Est. reflexivity.
+      * rewrite st_set, N.eqb_refl. cbv beta iota delta [FinDirectAt]. first [exact Logic.I | assumption].
     + (* ImplSkipped *)
       assert (NF : ~ Fin H s).
       { intros X. apply (c_fin _ _ HC s X). apply (SkippedStar_chain C H HC). exact S. }
@@ -1570,6 +1641,7 @@ Proof.
       * st_other.
       * rewrite st_set, N.eqb_refl. cbn [StatusSpec]. eapply SkippedStar_ext; eassumption.
       * rewrite st_set, N.eqb_refl, Est. reflexivity.
+      * rewrite st_set, N.eqb_refl. cbv beta iota delta [FinDirectAt]. first [exact Logic.I | assumption].
     + (* nothing known *)
       destruct S as [NN [NF U]]. destruct (FnoFin NF) as [F Dh]. fin_same.
       apply (nochange_inv C H H' HC' HE t _ s I); try reflexivity; try assumption.
@@ -1578,6 +1650,7 @@ Proof.
       * rewrite st_set, N.eqb_refl. cbn [StatusSpec]. split; [exact Nn|]. split; [intros X; apply NF; apply N2; exact X|].
         apply (Undecided_same H H' s L F U).
       * rewrite st_set, N.eqb_refl, Est. reflexivity.
+      * rewrite st_set, N.eqb_refl. cbv beta iota delta [FinDirectAt]. first [exact Logic.I | assumption].
 Qed.
 
 Lemma step_final s : Cons C (H ++ [TFinal s]) -> StepOK (TFinal s).
@@ -1616,7 +1689,7 @@ Proof.
     { intros y Dy. destruct (D y Dy) as [X|[X1 X2]]; [left; exact X|]. right.
       destruct y as [sy hy]. cbn [fst] in X1. subst sy. f_equal.
       pose proof (FinalStar_chain C H HC _ Fh) as Y. cbn [fst snd] in Y.
-      symmetry. apply (c_notar _ _ HC (s, hy) h X2 Y). }
+      pose proof (c_fin_notar _ _ HC' s hy Fn (ext_notar _ _ HE _ X2)) as Z. congruence. }
     split.
     - intros x Fx. destruct (FS_new_mark H H' (s, h) x Dy' L Fx) as [X|X]; [exact X | eapply FinalStar_anc; eassumption].
     - intros y Dy. destruct (Dy' y Dy) as [X| ->]; [left; exact X|]. right. cbn [fst].
@@ -1652,18 +1725,22 @@ Proof.
       * rewrite st_set, N.eqb_refl. cbn [StatusSpec]. split; [exact Fn|]. split; [intros h X; apply (NN h); apply N1; exact X|].
         apply (Undecided_same H H' s L F U).
       * rewrite st_set, N.eqb_refl, Est. reflexivity.
+      * rewrite st_set, N.eqb_refl. cbv beta iota delta [FinDirectAt]. first [exact Logic.I | assumption].
+    + pose proof (Direct_ext H H' _ HE (inv_fin_direct _ _ I s h' Est)) as Dd'.
+      destruct (Ffinal _ S) as [F Dy]. fin_same.
+      apply (nochange_inv C H H' HC' HE t _ s I); try reflexivity; try assumption.
+      * keys_set I Hs.
+      * st_other.
+      * rewrite st_set, N.eqb_refl. cbn [StatusSpec]. eapply FinalStar_ext; eassumption.
+      * rewrite st_set, N.eqb_refl, Est. reflexivity.
+      * rewrite st_set, N.eqb_refl. cbv beta iota delta [FinDirectAt]. first [exact Logic.I | assumption].
     + destruct (Ffinal _ S) as [F Dy]. fin_same.
       apply (nochange_inv C H H' HC' HE t _ s I); try reflexivity; try assumption.
       * keys_set I Hs.
       * st_other.
       * rewrite st_set, N.eqb_refl. cbn [StatusSpec]. eapply FinalStar_ext; eassumption.
       * rewrite st_set, N.eqb_refl, Est. reflexivity.
-    + destruct (Ffinal _ S) as [F Dy]. fin_same.
-      apply (nochange_inv C H H' HC' HE t _ s I); try reflexivity; try assumption.
-      * keys_set I Hs.
-      * st_other.
-      * rewrite st_set, N.eqb_refl. cbn [StatusSpec]. eapply FinalStar_ext; eassumption.
-      * rewrite st_set, N.eqb_refl, Est. reflexivity.
+      * rewrite st_set, N.eqb_refl. cbv beta iota delta [FinDirectAt]. first [exact Logic.I | assumption].
     + exfalso. apply Cs. apply (SkippedStar_chain C H HC). exact S.
     + destruct S as [NN [NF U]]. destruct (FnoNotar NN) as [F Dy]. fin_same.
       apply (nochange_inv C H H' HC' HE t _ s I); try reflexivity; try assumption.
@@ -1672,6 +1749,7 @@ Proof.
       * rewrite st_set, N.eqb_refl. cbn [StatusSpec]. split; [exact Fn|]. split; [intros h X; apply (NN h); apply N1; exact X|].
         apply (Undecided_same H H' s L F U).
       * rewrite st_set, N.eqb_refl, Est. reflexivity.
+      * rewrite st_set, N.eqb_refl. cbv beta iota delta [FinDirectAt]. first [exact Logic.I | assumption].
 Qed.
 
 Lemma step_parent c p : Cons C (H ++ [TParent c p]) -> StepOK (TParent c p).
@@ -1730,7 +1808,8 @@ Proof.
         -- intros h'. apply F.
         -- intros c0 p0 Fc0 Lc0 _. split; [apply F; exact Fc0 | apply L; exact Lc0].
         -- apply (inv_status _ _ I). exact Hs'.
-      * apply (inv_wm _ _ I). }
+      * apply (inv_wm _ _ I).
+      * intros s' h' E. apply (Direct_ext H H' _ HE). apply (inv_fin_direct _ _ I). exact E. }
       split; [exact I'|].
       apply (ev_empty_same C H H' HC' HE t t I (inv_status _ _ I')). intros s'. left. reflexivity.
     + (* a new link *)
@@ -1775,7 +1854,9 @@ Proof.
         - apply (inv_wm _ _ I).
         - exact HU.
         - exact HM.
-        - exact K1. }
+        - exact K1.
+        - intros s' h' E. change (st t1 s') with (st t s') in E.
+          apply (Direct_ext H H' _ HE). apply (inv_fin_direct _ _ I). exact E. }
       assert (Walk : FinalStar H (sc, hc) ->
                 exists t' ev, match ft_handle_impl (ft_fuel t1) t1 sc p fe_empty with
                               | Some (t2, ev) => Some (ft_prune t2, ev)
@@ -1813,6 +1894,8 @@ Proof.
           + exact Q5.
           + rewrite Q3. exact HU.
           + rewrite Q3. exact HM.
+          + apply (walk_fin_direct H' _ _ _ _ _ _ _ R). intros s' h' E. change (st t1 s') with (st t s') in E.
+            apply (Direct_ext H H' _ HE). apply (inv_fin_direct _ _ I). exact E.
           + exists (ft_prune t2), ev2. split; [reflexivity|]. split; [split; [exact G1|]|].
             2:{ split; [exact G2|]. unfold ft_prune. cbn [ft_highest]. rewrite Q3. unfold t1. cbn [ft_highest]. lia. }
             destruct (handle_impl_op _ _ _ _ _ _ _ R) as [W1 [W2 [W3 [W4 [nf [ns [W5 [W6 [W7 [W8 [W9 [W10 W11]]]]]]]]]]]].
@@ -2084,6 +2167,7 @@ Proof.
   - split; cbn.
     + intros k v [X|[]]. injection X as <- _. lia.
     + intros b p [].
+  - intros s h E. unfold st, ft_init in E. cbn [ft_status alookup] in E. destruct (s =? 0); discriminate.
 Qed.
 
 (* what the events of a run from history H to history H'' report *)
@@ -2250,7 +2334,7 @@ Proof.
   destruct (s <? ft_first t); [injection R as <- <-; auto|].
   destruct (alookup s (ft_status t)) as [[h'| |h'|h'|]|] eqn:E; cbn [is_decided] in Dec; try discriminate.
   - destruct (h' =? h); [|discriminate]. injection R as <- <-. split; [apply set_restore; exact E | reflexivity].
-  - destruct (h' =? h); [|discriminate]. injection R as <- <-. split; [apply set_restore; exact E | reflexivity].
+  - injection R as <- <-. split; [apply set_restore; exact E | reflexivity].
   - injection R as <- <-. split; [apply set_restore; exact E | reflexivity].
 Qed.
 Theorem late_finalization_ignored : forall t s t' ev,
@@ -2354,17 +2438,97 @@ Qed.
 
 (* consistency of a history is inherited by its prefixes: every theorem above applies after every
    operation of a consistent run ("as soon as") *)
+Lemma finb_app a b s : finb (a ++ b) s = finb a s || finb b s.
+Proof. unfold finb. apply existsb_app. Qed.
+Lemma fin_guard_prefix a b s (x : bool) : negb (finb (a ++ b) s) || x = true -> negb (finb a s) || x = true.
+Proof. rewrite finb_app. destruct (finb a s), (finb b s), x; cbn; congruence. Qed.
 Lemma op_consistent_prefix C a b o : op_consistent C (a ++ b) o = true -> op_consistent C a o = true.
 Proof.
   destruct o as [c p|x|x|s]; cbn [op_consistent]; try (intros X; exact X).
   - rewrite forallb_app. intros X. apply andb_prop in X. destruct X as [X X3]. apply andb_prop in X. destruct X as [X1 X2].
     apply andb_prop in X2. destruct X2 as [X2 _]. rewrite X1, X2, X3. reflexivity.
-  - rewrite forallb_app. intros X. apply andb_prop in X. destruct X as [X X3]. apply andb_prop in X3. destruct X3 as [X3 _].
-    rewrite X, X3. reflexivity.
+  - rewrite forallb_app. intros X. apply andb_prop in X. destruct X as [X X3]. apply andb_prop in X. destruct X as [X1 X2].
+    apply andb_prop in X3. destruct X3 as [X3 _].
+    apply fin_guard_prefix in X1. rewrite X1, X2, X3. reflexivity.
+  - rewrite forallb_app. intros X. apply andb_prop in X. destruct X as [X X3]. apply andb_prop in X. destruct X as [X1 X2].
+    apply andb_prop in X2. destruct X2 as [X2 _]. rewrite X1, X2, X3. reflexivity.
 Qed.
 Lemma consistent_prefix C a b : ft_consistent C (a ++ b) = true -> ft_consistent C a = true.
 Proof.
-  unfold ft_consistent. intros X. apply andb_prop in X. destruct X as [X1 X2]. rewrite X1. cbn [andb].
+  unfold ft_consistent. intros X. apply andb_prop in X. destruct X as [X1 X2].
+  apply fin_guard_prefix in X1. rewrite X1. cbn [andb].
   rewrite forallb_app in X2. apply andb_prop in X2. destruct X2 as [X2 _].
   rewrite forallb_forall in X2 |- *. intros o Ho. apply (op_consistent_prefix C a b). apply X2. exact Ho.
+Qed.
+
+(* ================= the pinned assertions (Model/FinalitySpec.v, [strict] = true) ================= *)
+(* [strict] = false is the current model, definition by definition *)
+Lemma ft_handle_impl_gen_false : forall fuel t m b ev,
+  ft_handle_impl_gen false fuel t m b ev = ft_handle_impl fuel t m b ev.
+Proof.
+  induction fuel as [|f IH]; intros t m b ev; [reflexivity|].
+  cbn [ft_handle_impl_gen ft_handle_impl andb].
+  destruct (negb (fst b <? m)); [reflexivity|]. destruct (fst b <? ft_first t); [reflexivity|].
+  destruct (ft_skip_between t ev _) as [[[t1 ev1] fl]|]; [|reflexivity]. destruct fl; [reflexivity|].
+  cbv zeta.
+  destruct (alookup (fst b) (ft_status t1)) as [[h| |h|h|]|]; try reflexivity;
+    (destruct (blookup b (ft_parents (ft_set_status t1 (fst b) (FImplFinalized (snd b))))); [apply IH | reflexivity]).
+Qed.
+Lemma ft_hfb_gen_false t b ev : ft_handle_finalized_block_gen false t b ev = ft_handle_finalized_block t b ev.
+Proof.
+  unfold ft_handle_finalized_block_gen, ft_handle_finalized_block. cbv zeta.
+  destruct (blookup b _); [|reflexivity]. rewrite ft_handle_impl_gen_false. reflexivity.
+Qed.
+Lemma ft_step_gen_false t o : ft_step_gen false t o = ft_step t o.
+Proof.
+  destruct o as [c p|b|b|s]; cbn [ft_step_gen ft_step].
+  - unfold ft_add_parent_gen, ft_add_parent. destruct (negb (fst p <? fst c)); [reflexivity|].
+    destruct (fst c <? ft_first t); [reflexivity|]. destruct (blookup c (ft_parents t)); [reflexivity|].
+    cbv zeta. destruct (alookup (fst c) _) as [[h| |h|h|]|]; try reflexivity;
+      (destruct (h =? snd c); [rewrite ft_handle_impl_gen_false; reflexivity | reflexivity]).
+  - unfold ft_mark_notarized_gen, ft_mark_notarized. cbn [andb]. destruct (fst b <? ft_first t); [reflexivity|].
+    cbv zeta. destruct (alookup (fst b) (ft_status t)) as [[h| |h|h|]|]; try reflexivity. apply ft_hfb_gen_false.
+  - unfold ft_mark_fast_finalized_gen, ft_mark_fast_finalized. destruct (fst b <? ft_first t); [reflexivity|].
+    cbv zeta. destruct (alookup (fst b) (ft_status t)) as [[h| |h|h|]|]; try reflexivity; try apply ft_hfb_gen_false.
+    destruct (h =? snd b); [apply ft_hfb_gen_false | reflexivity].
+  - unfold ft_mark_finalized_gen, ft_mark_finalized. destruct (s <? ft_first t); [reflexivity|].
+    cbv zeta. destruct (alookup s (ft_status t)) as [[h| |h|h|]|]; try reflexivity. apply ft_hfb_gen_false.
+Qed.
+Lemma ft_run_gen_false : forall ops t, ft_run_gen false t ops = ft_run t ops.
+Proof.
+  induction ops as [|o rest IH]; intros t; [reflexivity|]. cbn [ft_run_gen ft_run].
+  rewrite ft_step_gen_false. destruct (ft_step t o) as [[t1 ev]|]; [|reflexivity]. rewrite IH. reflexivity.
+Qed.
+
+(* the safe execution found by the C01 composition (stakes [41,40,19]): slot 1 holds a notarization
+   certificate for (1,12) and a notar-fallback certificate for (1,11); the chain continues from (1,11);
+   (4,41) is fast-finalized.  In tracker operations, followed by a late re-delivery of the notarization: *)
+Definition nb_chain (s : slot) : option hash :=
+  if s =? 0 then Some 0 else if s =? 1 then Some 11 else if s =? 2 then Some 21 else if s =? 4 then Some 41 else None.
+Definition nb_ops : list ft_op :=
+  [TParent (1, 11) (0, 0); TParent (1, 12) (0, 0); TNotar (1, 12); TParent (2, 21) (1, 11);
+   TParent (4, 41) (2, 21); TNotar (4, 41); TFast (4, 41); TNotar (1, 12)].
+(* the same conflict met by mark_notarized: the notarization of (2,22) arrives after (2,21) has been
+   implicitly finalized, while slot 2 is still held (slot 1 is undecided) *)
+Definition nb_chain2 (s : slot) : option hash := if s =? 2 then Some 21 else if s =? 3 then Some 31 else None.
+Definition nb_ops2 : list ft_op := [TParent (3, 31) (2, 21); TFast (3, 31); TNotar (2, 22)].
+
+Lemma nb_ops_consistent : ft_consistent nb_chain nb_ops = true /\ ft_consistent nb_chain2 nb_ops2 = true.
+Proof. vm_compute. split; reflexivity. Qed.
+Lemma nb_ops_run : exists t evs, ft_run ft_init nb_ops = Some (t, evs) /\
+  In (1, 11) (flat_map fe_impl_final evs) /\
+  all_final_events evs = [(4, 41); (2, 21); (1, 11); (0, 0)] /\ all_skip_events evs = [3] /\
+  ft_first t = 4 /\ ft_highest t = 4.
+Proof. eexists; eexists. split; [vm_compute; reflexivity|]. vm_compute. repeat split. right. left. reflexivity. Qed.
+Lemma nb_ops2_run : exists t evs, ft_run ft_init nb_ops2 = Some (t, evs) /\
+  ft_view t 2 = VFinal 21 /\ all_final_events evs = [(3, 31); (2, 21)] /\ ft_first t = 0.
+Proof. eexists; eexists. split; [vm_compute; reflexivity|]. vm_compute. repeat split. Qed.
+
+(* with the pinned assertions both consistent histories panic *)
+Lemma pinned_notarized_other_block_panics :
+  ft_consistent nb_chain nb_ops = true /\ ft_run_pinned ft_init nb_ops = None /\ ft_run ft_init nb_ops <> None /\
+  ft_consistent nb_chain2 nb_ops2 = true /\ ft_run_pinned ft_init nb_ops2 = None /\ ft_run ft_init nb_ops2 <> None.
+Proof.
+  split; [vm_compute; reflexivity|]. split; [vm_compute; reflexivity|]. split; [vm_compute; discriminate|].
+  split; [vm_compute; reflexivity|]. split; [vm_compute; reflexivity|]. vm_compute. discriminate.
 Qed.
